@@ -118,6 +118,20 @@ theorem good_entries_start (c : RawCfg)
       | none => exact absurd hk hm
       | some acl => simp
 
+/-- in the chain the server assembles (certificate auth, access control, rate limiter — in this order) a peer that
+    access control refuses gets the 53 line whatever the rate limiter would say: a denied peer is never told to
+    "slow down" instead, however many requests it sends -/
+theorem denied_53_whatever_limiter (acl : Acl) (a : Option Addr) (limiter : Option (List Nat))
+    (h : isAllowed acl a = false) : serverChain none (aclProcess acl a) limiter = some denyLine := by
+  unfold serverChain aclProcess
+  simp [h, chainFirst]
+
+/-- and an admitted peer's verdict is the rate limiter's alone -/
+theorem admitted_defers_to_limiter (acl : Acl) (a : Option Addr) (limiter : Option (List Nat))
+    (h : isAllowed acl a = true) : serverChain none (aclProcess acl a) limiter = limiter := by
+  unfold serverChain aclProcess
+  cases limiter <;> simp [h, chainFirst]
+
 /-! ### ties to the current source (extraction) -/
 
 /-- the refusal line of the model is the one literal `AccessControl.process_request` returns -/
@@ -127,6 +141,8 @@ theorem denyLine_known : denyLine ∈ Gen.mwResponses := by decide
 theorem strict_tie : Gen.aclNetworkStrict = true := by decide
 /-- the last (`/128`) attempt is not inside a `try`: its `ValueError` leaves the constructor -/
 theorem third_attempt_tie : Gen.aclThirdAttemptGuarded = false := by decide
+/-- `start_server` appends the components in the order the chain model assumes -/
+theorem chain_order_tie : Mw.chainOrder = Gen.chainOrder := by decide
 
 /-! ### non-vacuity -/
 def n10 : Net := ⟨.v4, 0x0A000000, 8⟩
@@ -144,4 +160,6 @@ example : start ⟨true, some [okE], some [badE], true⟩ = .failed := by decide
 example : start ⟨false, some [badE], none, true⟩ = .running none := by decide
 example : ∃ acl, start ⟨true, some [okE], none, false⟩ = .running (some acl) := ⟨⟨[n10], [], false⟩, by decide⟩
 example : runningProcess (some ⟨[n10], [], false⟩) (some ⟨.v4, 0x0B000000⟩) = some denyLine := by decide
+example : serverChain none (aclProcess ⟨[n10], [], false⟩ (some ⟨.v4, 0x0B000000⟩)) (some [52, 52]) = some denyLine := by decide
+example : serverChain none (aclProcess ⟨[n10], [], false⟩ (some ⟨.v4, 0x0A000001⟩)) (some [52, 52]) = some [52, 52] := by decide
 end NauyacaVerif.C09
